@@ -56,6 +56,10 @@ def run(chk, orch):
             # the number of files (replicates) is part of the input: it is fixed per workload, only the ORDER of the files
             # varies (IsoQuant treats several files of one experiment as technical replicates when building models)
             spec["n_bams"] = chk.rng.choice([1, 1, 2, 3])
+            if k == 1:
+                # pinned for the kill-during-collection variant: paralog pairs spread over >= 4 chromosomes, so that after the first
+                # chromosome(s) are collected some reads have one alignment on a finished and one on an unfinished chromosome
+                spec.update(paralogs=2, n_chr=4, genes_per_chr=4, intergenic_multi=2)
             if k == 0:
                 # two experiments with the same read ids in one invocation: the alignments of one experiment must not take part
                 # in the resolution of the other (variant 2 runs them in one process with --high_memory)
